@@ -163,16 +163,16 @@ fn oracles(run: &mut Run, id: &str, c: &Case, o: &Obs, req: &str) {
         run.count("curve:oracle:skipped-unbounded-input");
         return;
     }
-    // OBSERVATION (rosu-map, osu! mode only, not a property of rosu-pp's outputs): a legacy catmull
-    // segment whose first two control points coincide comes back to its start within 6 px, the
-    // optimisation pass keeps `[A, A, …]` with `optimized_len > 0`, and an expected distance
-    // `<= optimized_len` makes `calculate_length` normalise the zero vector `A - A`: the second
-    // vertex is NaN (`0 * inf`). Counted, not failed, when exactly this shape is seen.
+    // OBSERVATION (rosu-map, osu! mode only, not a property of rosu-pp's outputs): `calculate_length`
+    // seeds the running length with `optimized_len` (what the osu!-only catmull pass removed, anywhere
+    // in the path) but `lengths[0] = 0`, so `lengths[1] = optimized_len + |p1 - p0|`. When the first two
+    // vertices coincide (e.g. a legacy catmull segment `[A, A, B]` that returns to its start within
+    // 6 px) and the expected distance is `<= optimized_len`, the path is cut to `[A, A]` and the zero
+    // vector `A - A` is normalised: the second vertex is NaN (`0 * inf`). Counted, not failed, when
+    // exactly this shape is seen (osu!, a catmull segment, result `[A, NaN]`, lengths `[0, expected]`).
     let nan_shape = c.mode == 0
         && c.cps.len() >= 3
-        && c.cps[0].2 == 'C'
-        && (c.cps[0].0, c.cps[0].1) == (c.cps[1].0, c.cps[1].1)
-        && c.cps[1].2 == 'n'
+        && c.cps.iter().any(|p| p.2 == 'C')
         && o.path.len() == 2
         && o.path[1].x.is_nan()
         && o.path[1].y.is_nan()
@@ -180,6 +180,17 @@ fn oracles(run: &mut Run, id: &str, c: &Case, o: &Obs, req: &str) {
         && o.lengths.len() == 2;
     if nan_shape {
         run.count("curve:observed:nan-vertex(catmull-osu-returns-to-start,expected<=optimized_len)");
+        return;
+    }
+    // OBSERVATION (rosu-map): `circular_arc_properties` tests the determinant with one f32 formula
+    // (`> f32::EPSILON`) and divides by `d`, the same quantity computed by another; with sub-pixel or
+    // very large coordinates `d` can cancel to 0 (centre = inf / NaN) although the test passed. Cannot
+    // happen for integer coordinates within +-2048 (every product and sum of `d` is exact there), which
+    // is where a non-finite vertex is reported as a failure.
+    let nonfinite = o.path.iter().any(|p| !p.x.is_finite() || !p.y.is_finite()) || o.lengths.iter().any(|l| !l.is_finite());
+    let small_integers = c.cps.iter().all(|&(x, y, _)| x.fract() == 0.0 && y.fract() == 0.0 && x.abs() <= 2048.0 && y.abs() <= 2048.0);
+    if nonfinite && !small_integers {
+        run.count("curve:observed:nonfinite-vertex-or-length(non-integer or large coordinates)");
         return;
     }
     // cumulative lengths: start at 0, non-decreasing, non-negative; dist = last. Tolerance: in osu!
